@@ -158,4 +158,75 @@ example :
   exact C08_window_accepted env cfg (by decide) Node.empty.led C 2 (by decide) 400 hfull n3.led 3 (by decide) (by decide)
     (by decide) (C07_invariant env cfg n3 C05ex.reach3)
 
+instance (cfg : Cfg) (a b : Block) : Decidable (BlockStep cfg a b) := by
+  unfold BlockStep
+  exact inferInstance
+
+/-- a decidable form of `Shape` -/
+def shapeB (cfg : Cfg) : List Block → Bool
+  | a :: b :: rest => decide (BlockStep cfg a b) && shapeB cfg (b :: rest)
+  | _ => true
+
+theorem shape_of_shapeB (cfg : Cfg) : ∀ bs, shapeB cfg bs = true → Shape cfg bs
+  | [], _ => ShapeL.shape_nil cfg
+  | [a], _ => by
+    rw [ShapeL.shape_cons]
+    exact ⟨by intro c hc; simp at hc, ShapeL.shape_nil cfg⟩
+  | a :: b :: rest, h => by
+    simp only [shapeB, Bool.and_eq_true, decide_eq_true_eq] at h
+    rw [ShapeL.shape_cons]
+    refine ⟨?_, shape_of_shapeB cfg (b :: rest) h.2⟩
+    intro c hc
+    simp only [List.head?_cons, Option.some.injEq] at hc
+    subst hc
+    exact h.1
+
+namespace C08ex
+/-- the five-block chain of the `C05_solo_history` example -/
+def C5 : List Block := (Ru.run env cfg n3 [.submit C05ex.tx, .tick 240 [C05ex.tx] "r3", .tick 300 [] "r4"]).led.blocks
+end C08ex
+
+open C08ex in
+/-- **non-vacuity of `C08_convergence_accepted`, every hypothesis instantiated**: the five-block chain is shaped and
+    acceptable from height 0 from time 300 on (`C05_solo_history`); `n3` (reachable, hence derived) holds its first
+    three blocks; one round at time 400 against one honest neighbour with pages of 2 is a `RoundsFrom … 1`, and the
+    theorem gives the node exactly the first four blocks. -/
+example : ∃ l', C08.RoundsFrom env cfg C5 2 ["p:1"] 300 1 n3.led l' ∧ l'.blocks = C5.take 4 ∧ Derived l' := by
+  have hacc3 : AcceptedFrom env cfg Node.empty.led [] n3.led.blocks n3.led.lastTs := by
+    intro now hnow
+    have h0 : Ledger.verify env cfg Node.empty.led [] n3.led.blocks [] 180 = .ok n3.led.blocks := by rfl
+    exact Ledger.agree_verify_mono h0 (by have : n3.led.lastTs = 180 := by decide
+                                          omega)
+  have hw : ∀ o ∈ ([.submit C05ex.tx, .tick 240 [C05ex.tx] "r3", .tick 300 [] "r4"] : List Op), o.WF := by
+    intro o ho
+    simp only [List.mem_cons, List.mem_nil_iff, or_false] at ho
+    rcases ho with rfl | rfl | rfl
+    · simp only [Op.WF]; decide
+    · simp [Op.WF]
+    · simp [Op.WF]
+  have ha : Along env cfg (SoloStep cfg) n3 [.submit C05ex.tx, .tick 240 [C05ex.tx] "r3", .tick 300 [] "r4"] := by
+    refine ⟨trivial, ?_, ?_, trivial⟩
+    · show SoloStep cfg (Ru.step env cfg n3 (.submit C05ex.tx)) (.tick 240 [C05ex.tx] "r3")
+      simp only [SoloStep]
+      refine ⟨by decide, by decide, by decide, by decide, by decide, by decide⟩
+    · show SoloStep cfg (Ru.step env cfg (Ru.step env cfg n3 (.submit C05ex.tx)) (.tick 240 [C05ex.tx] "r3")) (.tick 300 [] "r4")
+      simp only [SoloStep]
+      refine ⟨by decide, by decide, by decide, by decide, by decide, by decide⟩
+  have hfull : AcceptedFrom env cfg Node.empty.led [] C5 300 := by
+    have h := C05_solo_history env cfg (by decide) (by decide) Node.empty.led [] _ n3 C05ex.reach3 hw ha hacc3
+    have e : (Ru.run env cfg n3 [.submit C05ex.tx, .tick 240 [C05ex.tx] "r3", .tick 300 [] "r4"]).led.lastTs = 300 := by decide
+    rw [e] at h
+    exact h
+  have hshape : Shape cfg C5 := shape_of_shapeB cfg C5 (by decide)
+  have hsome : ((Sync.outcomes env cfg n3.led 400 (C08.honestResps C5 2 n3.led.blocks.length ["p:1"]))[0]?.map (·.blocks))
+      = some (C5.take 4) := by decide
+  obtain ⟨l', hl', hb⟩ := Option.map_eq_some_iff.mp hsome
+  have hrounds : C08.RoundsFrom env cfg C5 2 ["p:1"] 300 1 n3.led l' :=
+    .succ ⟨400, by decide, List.mem_of_getElem? hl'⟩ (.zero l')
+  have := C08_convergence_accepted env cfg (by decide) Node.empty.led C5 2 ["p:1"] 300 (by decide) hshape (by simp)
+    (by simp) hfull 1 3 n3.led l' (by decide) (by decide) (by decide) (C07_invariant env cfg n3 C05ex.reach3) hrounds
+  refine ⟨l', hrounds, ?_, this.2⟩
+  rw [this.1]
+  decide
+
 end Ru
